@@ -1134,6 +1134,19 @@ def _atom_class(self, fn, a, seen=None):
             return "param"
         if x[0] == "try":
             x = x[1]
+        if x[0] == "call" and x[1].endswith("::next") and len(x) > 3 and x[3] is not None and x[3][0] == fn.path:
+            # the item of a range iterator: as understood as the range's own bounds (an index drawn from 0..n is a
+            # cursor when n is one); the item of an enumerate over a slice likewise follows the slice
+            info = an.term.get(x[3][1])
+            if info is not None and info.get("pre") and info["pre"][0] is not None:
+                o = self.iter_origin(fn, info["pre"][0])
+                if o and o != "same" and o[0] in ("incl", "excl"):
+                    cs = []
+                    for bnd in (o[1], o[2]):
+                        for at, k in self.prover(fn).lin(bnd)[1]:
+                            cs.append(self.atom_class(fn, at, seen))
+                    w = max(cs, key=lambda c: RANK[c]) if cs else "const"
+                    return "cursor" if RANK[w] <= 1 else w
         if x[0] == "call" and self.is_local(x[1]):
             # component of the result of an analysed in-crate call: understood only if the
             # callee's proved postconditions say something about that component
